@@ -336,7 +336,7 @@ def syn_arms(ctx, rid, strict_alloc=True):
     tp = [b for b in q.fn_by_suffix(ctx.P, "quote::ToTokens>::to_tokens", "scale_typegen") if "TypeParameter as" in b["path"] and "TypeParameters" not in b["path"]]
     if len(tp) == 1:
         Np = _norm(ctx, tp[0])
-        expect_term(ctx, rid, "syn/param-tokens", tp[0]["sp"], Np.term(tp[0]["body"]), "ToTokens::to_tokens(P0.name,P1)", "a type parameter renders as its generated name only")
+        expect_term(ctx, rid, "syn/param-tokens", tp[0]["sp"], Np.term(tp[0]["body"]), "Extend::extend(P1,T[#0](P0.name))", "a type parameter renders as its generated name only")
     else:
         ctx.bad(rid, "missing-anchor/TypeParameter::to_tokens", "", "impl ToTokens for TypeParameter not found (%d)" % len(tp))
 
@@ -462,7 +462,7 @@ def generated_path(ctx, rid):
     arms = {p: b for p, g, b in pm[2]}
     ctx.expect("[]" in arms and arms["[]"] == ("opaque", "diverge"), rid, "generated-path/empty", fn["sp"],
                "empty path: unreachable for struct/enum (W3), diverges", "arms: " + str(list(arms)))
-    gen = arms.get("_")
+    gen = arms.get("_", arms.get("$"))          # the catch-all arm, whether it names the slice or not
     exp = ("T[#0](vec+(From::from(P%d),for(P%d.segments){From::from(format_ident(F[{__private::IdentFragmentAdapter(elem(P%d.segments))}]))}))"
            % (i_root, i_path, i_path))
     if gen is None:
@@ -499,8 +499,8 @@ def enum_struct_ir(ctx, rid):
     tp_sym = None
     # the type-parameters local (mutated by the composite-kind builder)
     for lid, (origin, path, pat) in N.defs.items():
-        if pat.get("ty", "").endswith("type_params::TypeParameters") and origin[0] == "let":
-            tp_sym = lid
+        if pat.get("ty", "").endswith("type_params::TypeParameters") and not pat.get("ty", "").startswith("&") and origin[0] == "let":
+            tp_sym = lid            # (the owned local, not a `&mut` alias of it handed to a helper)
     syms = {tp_sym: "TP"} if tp_sym is not None else {}
     name_exp = "syn::parse_str(Path::ident(%s.path)@v1::Some.0)?" % TY
     docs_exp = "TypeGenerator::docs_from_scale_info(P0,%s.docs)" % TY
@@ -543,8 +543,16 @@ def enum_struct_ir(ctx, rid):
         ctx.bad(rid, "missing-anchor/TypeIR-literal", fn["sp"], "expected one TypeIR literal in create_type_ir, found %d" % len(tirs))
     # TP initialisation
     if tp_sym is not None:
-        tpt = N.local_term(tp_sym)
-        init = tpt[2] if tpt[0] == "mut" else tpt
+        def init_of(x):
+            # the initial value of a local that is afterwards only mutated in place (possibly under one guard: `if c { mut[I; ..] } else { I }`)
+            while x[0] == "mut":
+                x = x[2]
+            if x[0] == "if":
+                a, b = init_of(x[2]), init_of(x[3])
+                if a == b:
+                    return a
+            return x
+        init = init_of(N.local_term(tp_sym))
         expect_term(ctx, rid, "type-ir/params-init", fn["sp"], init, "TypeParameters::from_scale_info(%s.type_params)" % TY, "declared parameters from the definition's own type_params")
     else:
         ctx.bad(rid, "missing-anchor/type-params-local", fn["sp"], "no TypeParameters local in create_type_ir")
@@ -776,9 +784,22 @@ def keep_first_or_error(ctx, rid):
     if va is None or oc is None:
         ctx.bad(rid, "keep-first/arms", site(m), "Vacant / Occupied arms not both explicit")
         return
-    vt = show(N.term(va["body"], arm_syms(va["pat"])))
+    def arm_term(arm):
+        # an arm that yields Ok(()) / Err(e) to a `?` around the match (the match moved into a fallible helper) is the statement it stands for
+        from .core.norm import _mk_try, _is_unit
+        t = N.term(arm["body"], arm_syms(arm["pat"]))
+        if str(strip(arm["body"]).get("ty", "")).startswith(("std::result::Result<", "core::result::Result<")):
+            if t[0] == "seq":
+                tail = _mk_try(t[2])
+                t = (t[1][0] if len(t[1]) == 1 else ("seq", t[1], ("lit", "()"))) if _is_unit(tail) or tail == ("tup", []) else ("seq", t[1], tail)
+            else:
+                t = _mk_try(t)
+            from .core.norm import rewrite
+            t = rewrite(t, lambda n: ("lit", "()") if n == ("tup", []) else None)        # the unit of `Ok(())` is the unit of a statement
+        return show(t)
+    vt = arm_term(va)
     expect_term(ctx, rid, "keep-first/vacant", va, vt, "VacantEntry::insert(A,(%s.id,%s))" % (E, ANY), "vacant: insert (this entry's id, its IR)")
-    ot = show(N.term(oc["body"], arm_syms(oc["pat"])))
+    ot = arm_term(oc)
     exp_o = "early{Not(utils::types_equal(%s.id,OccupiedEntry::get(A).0,P0.type_registry))=>return Err(TypegenError::DuplicateTypePath(ToString::to_string(%s.ty.path)))}'()'" % (E, E)
     expect_term(ctx, rid, "keep-first/occupied", oc, ot, exp_o,
                 "occupied: nothing is written; Err(DuplicateTypePath(path)) iff the new type is not shape-equal to the kept one (ids flow by identity)")
